@@ -941,7 +941,7 @@ def _directed_child(payload):
                 panel_valid = True
             # (on panel data no row variable may sit outside the trajectory: parameter-only wrappers there)
             wrap = rr.choice(['root', 'addbeta', 'exp', 'neg', 'elembeta'] if fault == 'panel' else ['root', 'add', 'exp', 'elem', 'multsum', 'cmp', 'neg'])
-            e = {'root': lambda: e, 'add': lambda: e + b * X, 'addbeta': lambda: e + b * 2, 'elembeta': lambda: ex.Elem({0: e, 1: e * 2}, b > 5), 'exp': lambda: ex.exp(e), 'elem': lambda: ex.Elem({0: e, 1: e * 2}, X > 0),
+            e = {'root': lambda: e, 'add': lambda: e + b * X, 'addbeta': lambda: e + b * 2, 'elembeta': lambda: ex.Elem({0: e, 1: b * 3}, b > 5), 'exp': lambda: ex.exp(e), 'elem': lambda: ex.Elem({0: e, 1: e * 2}, X > 0),
                  'multsum': lambda: ex.bioMultSum([e, b * Y]), 'cmp': lambda: e * (Y > 0), 'neg': lambda: -e}[wrap]()
             out['wrap'] = wrap
             entry = rr.choice(['get_value_c', 'BIOGEME', 'simulate'])
